@@ -134,6 +134,11 @@ RULE = ("50% REST timeout cases: handler scripts of 0-6 actions (Set/Add/Del hea
         "parked; every wait bounded (blocked => violation); plus configuration cases through the real engine / a real started rpc server: "
         "(Config.Timeout in {0, 80 ms, 60 s}) x (route WithTimeout in {absent, 80 ms, 60 s}) with a handler parked 250 ms, "
         "Config.Verbose on/off x bodies of 3 B, 32 KiB-1/+0/+1, 48 KiB, 200 KiB in one Write / accumulated / 140-150 chunks of 500 B (thorough: 420 chunks, 210 KB), and "
+        "10 status scripts with Config.Timeout = 0 through the full chain on a real net/http server (103 then 404, 1xx only, "
+        "repeated WriteHeader, WriteHeader after Write, 1xx then panic) compared with RecoverHandler(bare handler) on a plain "
+        "server incl. the informational responses; 32 panics through the full chain x timeout off/on x brief/detailed log; 36+12 "
+        "cases under an application-wide httpx error handler {none, SetErrorHandler, SetErrorHandlerCtx} x {deadline, cancel, "
+        "httpx.Error, httpx.ErrorCtx} x {nil, error, JSON body}; "
         "rpc.NewServer(Timeout in {0, 100 ms, 60 s}, CpuThreshold in {0, 1000}) + Start with a context-ignoring handler parked "
         "300 ms; plus a fixed matrix: every panic-value kind x {nothing committed, header set, "
         "status committed, timeout=0 bypass} through Timeout+Recover and x {timeout interceptor in between, Timeout<=0} through "
@@ -148,7 +153,11 @@ TRUSTED = ["Go scheduler/select fairness and context cancellation propagation (a
            "harness/props/c02.py extraction of the unaryInterceptors slice literal of rpc/internal/server.go",
            "the scripted parent context reporting context.DeadlineExceeded stands for a timer-driven deadline "
            "(10% of the cut cases use the handler's own 40 ms timer instead)"]
-ASSUMPTIONS = ["a panic is detected by 'the protected call did not finish' (completion flag, since 39fe42d / D16), so every panic "
+ASSUMPTIONS = ["a handler installed with httpx.SetErrorHandlerCtx decides, by that API's contract, the reply of the timeout arm too "
+               "(Model.timeout_arm_events): spec_ok then requires exactly its (code, body); SetErrorHandler never does",
+               "behind the timeout guard informational 1xx responses are not delivered (the buffering writer drops them, D20): the "
+               "client receives the handler's FINAL status, headers and body; without the guard they are delivered as net/http does",
+               "a panic is detected by 'the protected call did not finish' (completion flag, since 39fe42d / D16), so every panic "
                "value incl. nil is a panic; a runtime.Goexit() inside a handler leaves the flag unset as well and is therefore "
                "also answered as a panic (500 / Internal) -- not modelled, not generated",
                "no global httpx error handler installed (httpx.SetErrorHandler[Ctx] replaces the 499/503 + reason reply of the "
@@ -157,7 +166,7 @@ ASSUMPTIONS = ["a panic is detected by 'the protected call did not finish' (comp
                "response is allowed (Go's select)",
                "handler's headers = header map at handler completion (the buffered writer copies tw.h when it flushes)",
                "wall-clock delivery of the deadline, TCP/net/http connection handling, hijack/flush/push, streaming RPC: not modelled",
-               "status codes 1xx are not generated (httptest.ResponseRecorder treats them as final, net/http does not)"]
+               "1xx is not generated for the in-package bypass cases (httptest.ResponseRecorder treats 1xx as final, net/http does not)"]
 
 # kinds of panic values the drivers can raise -> Model.pvalue
 PV_COQ = {"string": "PVString", "error": "PVError", "wrapped": "PVError", "nilmap": "PVRuntime", "nilptr": "PVRuntime",
@@ -180,8 +189,10 @@ INVALID = [0, 99, 600, 1000, -1]
 CHUNKS = ["", "a", "bc", "xyz"]
 
 
-def gen_action(rng, allow_nil=False):
+def gen_action(rng, allow_nil=False, allow_info=False):
     r = rng.random()
+    if allow_info and r < 0.04:
+        return {"a": "wh", "c": rng.choice([102, 103])}       # informational: never the final status
     if r < 0.17:
         return {"a": "set", "k": rng.randrange(3), "v": rng.randrange(4)}
     if r < 0.24:
@@ -200,7 +211,7 @@ def gen_action(rng, allow_nil=False):
 def gen_tw(rng):
     n = rng.choice([0, 1, 2, 2, 3, 3, 4, 4, 5, 6])
     recover = rng.random() < 0.85
-    acts = [gen_action(rng, allow_nil=True) for _ in range(n)]
+    acts = [gen_action(rng, allow_nil=True, allow_info=True) for _ in range(n)]
     c = {"kind": "tw", "recover": recover, "bypass": "none", "maxbytes": 0, "clen": -1, "rh0": [],
          "acts": acts, "fire": {"mode": "none", "k": 0, "cause": "none"}}
     if rng.random() < 0.3:
@@ -213,6 +224,9 @@ def gen_tw(rng):
         c["maxbytes"], c["clen"] = rng.choice([0, -1, 10, 100]), rng.choice([-1, 0, 9, 10, 11, 100, 101, 5000])
     if rng.random() < 0.08:
         c["bypass"] = rng.choice(["upgrade", "zero"])
+        for a in acts:          # httptest.ResponseRecorder (the in-package "real" writer) takes 1xx for final; net/http does not
+            if a["a"] == "wh" and 100 <= a["c"] <= 199:
+                a["c"] = 200
         return c
     r = rng.random()
     if r < 0.25:
@@ -284,7 +298,7 @@ def gen_e2e(rng):
     n = rng.choice([1, 2, 3, 4, 5])
     acts = []
     for _ in range(n):
-        a = gen_action(rng, allow_nil=True)
+        a = gen_action(rng, allow_nil=True, allow_info=True)
         if a["a"] == "wh" and a["c"] == 204:
             a["c"] = 201          # a client never sees a body with 204
         acts.append(a)
@@ -349,7 +363,7 @@ def gen_multi(rng):
     reqs = []
     for _ in range(m):
         n = rng.choice([0, 1, 2, 2, 3, 4])
-        q = {"rh0": [], "acts": [gen_action(rng, True) for _ in range(n)], "cause": rng.choice(["cancel", "deadline"])}
+        q = {"rh0": [], "acts": [gen_action(rng, True, True) for _ in range(n)], "cause": rng.choice(["cancel", "deadline"])}
         if rng.random() < 0.25:
             q["rh0"] = [{"k": rng.choice([2, 3]), "v": [9]}]
         reqs.append(q)
@@ -459,7 +473,8 @@ def gen_e2ec(rng, g=None, r=None, verbose=None, body=None, hold=None):
     if hold is None:
         hold = HOLD_MS if rng.random() < 0.55 else 0
     return {"kind": "e2ec", "gtimeout_ms": g, "rtimeout_ms": r, "verbose": verbose, "hold_ms": hold,
-            "k": rng.randint(0, len(acts)) if hold else 0, "acts": acts}
+            "k": rng.randint(0, len(acts)) if hold else 0, "full": rng.random() < 0.5, "ref": hold == 0 and rng.random() < 0.5,
+            "acts": acts}
 
 
 def config_matrix(rng):
@@ -474,6 +489,87 @@ def config_matrix(rng):
             out.append(gen_e2ec(rng, g=LARGE_MS, r=0, verbose=verbose, body=(rng.choice(["one", "acc"]), size), hold=0))
         out.append(gen_e2ec(rng, g=0, r=0, verbose=verbose, body=("many", 70000), hold=0))
         out.append(gen_e2ec(rng, g=LARGE_MS, r=0, verbose=verbose, body=("many", 75000), hold=0))
+    return out
+
+
+def status_scripts():
+    """Config.Timeout = 0: the handler writes straight through the code-capturing writers of the built-in middlewares to a
+    real net/http server -- informational 1xx before the final status, repeated WriteHeader, WriteHeader after Write"""
+    S = lambda k, v: {"a": "set", "k": k, "v": v}
+    H = lambda c: {"a": "wh", "c": c}
+    W = lambda b: {"a": "w", "b": b}
+    return [
+        [S(0, 1), H(103), S(1, 2), H(404), W("x")],
+        [H(103), H(404)],
+        [H(102), H(103), W("xy")],                      # informational only, then the implicit 200
+        [H(103), H(103), H(201), H(500), W("a"), W("b")],
+        [H(201), H(404), W("x")],                        # repeated WriteHeader: the first one counts
+        [H(404), H(103), W("x")],                        # 1xx after the commit: ignored
+        [W("ab"), H(404), W("c")],                       # WriteHeader after Write: 200 stays
+        [S(0, 1), W(""), H(500)],
+        [H(103), {"a": "panic", "pv": "error"}],         # informational, then a panic: 500
+        [H(503), W("busy")],
+    ]
+
+
+def status_matrix(rng):
+    out = []
+    for i, acts in enumerate(status_scripts()):
+        for g in (0, LARGE_MS):     # without the timeout guard: exactly net/http's delivery; behind it: the same FINAL response
+            out.append({"kind": "e2ec", "gtimeout_ms": g, "rtimeout_ms": 0, "verbose": (i + (g > 0)) % 2 == 0, "hold_ms": 0, "k": 0,
+                        "full": True, "ref": True, "acts": [dict(a) for a in acts]})
+    for acts in status_scripts()[:4]:       # and in-package: the buffering writer never takes 1xx for the status
+        out.append({"kind": "tw", "recover": True, "bypass": "none", "maxbytes": 0, "clen": -1, "rh0": [],
+                    "acts": [dict(a) for a in acts], "fire": {"mode": "none", "k": 0, "cause": "none"}})
+    return out
+
+
+def panic_chain_matrix(rng):
+    """a panicking handler through engine.bindRoute's chain with every built-in middleware active, timeout off / on, brief /
+    detailed log handler: 500 as from the bare RecoverHandler(handler) -- nothing inside may swallow the panic"""
+    out = []
+    for g in (0, LARGE_MS):
+        for verbose in (False, True):
+            for pv in ("string", "nil", "abort", "nilmap"):
+                p = {"a": "panic", "pv": pv}
+                for acts in ([p], [{"a": "set", "k": 0, "v": 1}, p, {"a": "w", "b": "x"}]):
+                    out.append({"kind": "e2ec", "gtimeout_ms": g, "rtimeout_ms": 0, "verbose": verbose, "hold_ms": 0, "k": 0,
+                                "full": True, "ref": True, "acts": [dict(a) for a in acts]})
+    return out
+
+
+def gen_g(rng, mode=None, scenario=None, body=None):
+    """application-wide httpx error handler x {overrun, client cancel, error reported by the handler through httpx}"""
+    mode = rng.choice(["none", "plain", "ctx"]) if mode is None else mode
+    scenario = rng.choice(["deadline", "cancel", "error", "errorctx", "mixed"]) if scenario is None else scenario
+    body = rng.choice(["nil", "err", "json"]) if body is None else body
+    acts = []
+    if rng.random() < 0.5:
+        acts.append({"a": "set", "k": rng.randrange(3), "v": rng.randrange(4)})
+    if scenario in ("error", "errorctx"):
+        acts.append({"a": "err", "ctx": scenario == "errorctx"})
+        if rng.random() < 0.3:
+            acts.append({"a": "w", "b": "x"})
+    else:
+        for _ in range(rng.randint(1, 3)):
+            r = rng.random()
+            acts.append({"a": "err", "ctx": rng.random() < 0.5} if r < 0.3 else
+                        ({"a": "wh", "c": rng.choice([200, 201, 404])} if r < 0.5 else {"a": "w", "b": rng.choice(CHUNKS)}))
+    fire = {"mode": "none", "k": 0, "cause": "none"}
+    if scenario in ("deadline", "cancel"):
+        fire = {"mode": "cut", "k": rng.randint(0, len(acts)), "cause": scenario}
+    elif scenario == "mixed" and rng.random() < 0.6:
+        fire = {"mode": rng.choice(["cut", "both"]), "k": rng.randint(0, len(acts)), "cause": rng.choice(["deadline", "cancel"])}
+    return {"kind": "g", "recover": True, "rh0": [{"k": 3, "v": [9]}] if rng.random() < 0.3 else [], "acts": acts, "fire": fire,
+            "gconf": {"mode": mode, "code": rng.choice([418, 200, 500]), "body": body}}
+
+
+def g_matrix(rng):
+    out = []
+    for mode in ("none", "plain", "ctx"):
+        for scenario in ("deadline", "cancel", "error", "errorctx"):
+            for body in ("nil", "err", "json"):
+                out.append(gen_g(rng, mode, scenario, body))
     return out
 
 
@@ -538,7 +634,8 @@ def generate(rng, tier, n):
         else:
             cases.append(gen_rmulti(rng))
     cases += value_matrix(e2e=tier in ("thorough", "search"))
-    cases += config_matrix(rng) + rsrv_matrix(rng)
+    cases += config_matrix(rng) + rsrv_matrix(rng) + status_matrix(rng) + panic_chain_matrix(rng) + g_matrix(rng)
+    cases += [gen_g(rng) for _ in range(120 if tier == "thorough" else 12)]
     extra = 60 if tier == "thorough" else 8
     cases += [gen_e2ec(rng) for _ in range(extra)] + [gen_rsrv(rng) for _ in range(2 * extra)]
     if tier == "thorough":
@@ -599,23 +696,30 @@ def search(rng, problems):
 
 
 # ------------------------------------------------------------------------------ driving both packages
+def as_tw(c):
+    """a `g` case is a `tw` case for the driver (same runner), with a gconf and possibly `err` actions"""
+    if c.get("kind") != "g":
+        return c
+    return dict(c, kind="tw", bypass="none", maxbytes=0, clen=-1)
+
+
 def drive(cases, tier):
-    rest = [c for c in cases if c.get("kind") in ("tw", "conns", "multi")]
+    rest = [c for c in cases if c.get("kind") in ("tw", "conns", "multi", "g")]
     rpc = [c for c in cases if c.get("kind") in ("rpc", "rmulti")]
     e2e = [c for c in cases if c.get("kind") in ("e2e", "e2em", "e2ec")]
     rsrv = [c for c in cases if c.get("kind") == "rsrv"]
     log = ""
     tag = {"quick": "", "thorough": "t", "search": "s"}.get(tier, tier[:1])
-    obs_rest, l1 = vlib.run_driver(GO_PKG, rest, name="C02" + tag, timeout=DRIVER_TIMEOUT, run=REST_RUN) if rest else ([], "")
+    obs_rest, l1 = vlib.run_driver(GO_PKG, [as_tw(c) for c in rest], name="C02" + tag, timeout=DRIVER_TIMEOUT, run=REST_RUN) if rest else ([], "")
     log += l1 or ""
     if obs_rest is None:
         return None, log
     # a real-timer cut the scheduler could not deliver after 8 attempts: same schedule with the scripted deadline
-    redo = [i for i, o in enumerate(obs_rest) if o.get("gave_up") and rest[i].get("kind") == "tw"]
+    redo = [i for i, o in enumerate(obs_rest) if o.get("gave_up") and rest[i].get("kind") in ("tw", "g")]
     if redo:
         for i in redo:
             rest[i]["fire"]["cause"] = "deadline"
-        o2, l2 = vlib.run_driver(GO_PKG, [rest[i] for i in redo], name="C02" + tag + "x", timeout=DRIVER_TIMEOUT, run=REST_RUN)
+        o2, l2 = vlib.run_driver(GO_PKG, [as_tw(rest[i]) for i in redo], name="C02" + tag + "x", timeout=DRIVER_TIMEOUT, run=REST_RUN)
         log += l2 or ""
         if o2 is None:
             return None, log
@@ -692,6 +796,21 @@ def c_event(e):
 
 def encode(case, obs):
     kind = case.get("kind")
+    if kind == "g":
+        gc = case["gconf"]
+        gb = {"nil": "GBNil", "err": "GBErr", "json": "GBJson"}[gc["body"]]
+        conf = {"none": "GNone", "plain": "(GPlain %s %s)" % (cZ(gc["code"]), gb), "ctx": "(GCtx %s %s)" % (cZ(gc["code"]), gb)}[gc["mode"]]
+        f = case["fire"]
+        fire = {"none": "FNone", "cut": "(FCut %s %s)" % (cnat(f["k"]), c_cause(f["cause"])),
+                "both": "(FBoth %s)" % c_cause(f["cause"])}[f["mode"]]
+        acts = clist(["GError %s" % cbool(a.get("ctx", False)) if a["a"] == "err" else "GPrim (%s)" % c_action(a) for a in case["acts"]])
+        r = obs.get("resp") or {}
+        bad = "error" in obs or "driver_panic" in obs or obs.get("gave_up")
+        return "CaseG (mkgc %s %s %s %s %s %s (mkresp %s %s %s) %s %s)" % (
+            conf, cbool(case["recover"]), c_hdrs(case["rh0"]), acts, fire,
+            clist([c_event(e) for e in obs.get("events") or []]) if not bad else "[RWrite []; RWrite []]",
+            cZ(r.get("status", 0)), c_hdrs(r.get("h")), c_lnat(r.get("body") or []),
+            clist([c_outcome(t) for t in obs.get("trace") or []]), cbool(obs.get("panicked", False)))
     if kind == "e2ec":
         if obs.get("gave_up"):
             return "CaseM (mkmc true [] [])"      # the scheduler never delivered this schedule: nothing to compare
@@ -699,10 +818,20 @@ def encode(case, obs):
         answered = r is not None
         r = r or {}
         body = "(unrle %s)" % clist([cpair(cnat(b), cnat(n)) for b, n in r.get("rle") or []])
-        return "CaseE (mkec %s %s %s %s %s %s (mkresp %s %s %s) %s %s %s)" % (
+        ref = obs.get("ref")
+        if case.get("ref") and (not ref or "client_error" in ref):
+            answered = False          # the reference run itself failed: nothing to compare with
+        if ref and "client_error" not in ref:
+            cref = "(Some (mkresp %s %s (unrle %s), %s))" % (
+                cZ(ref.get("status", 0)), c_hdrs(ref.get("h")), clist([cpair(cnat(b), cnat(n)) for b, n in ref.get("rle") or []]),
+                clist([cZ(x) for x in ref.get("info") or []]))
+        else:
+            cref = "None"
+        return "CaseE (mkec %s %s %s %s %s %s (mkresp %s %s %s) %s %s %s %s %s)" % (
             cZ(case["gtimeout_ms"]), cZ(case["rtimeout_ms"]), cbool(case["verbose"]), cZ(case["hold_ms"]), cnat(case["k"]),
             clist([c_action(a) for a in case["acts"]]), cZ(r.get("status", 0)), c_hdrs(r.get("h")), body,
-            clist([c_outcome(t) for t in obs.get("trace") or []]), cbool(answered), cbool(obs.get("prompt", False)))
+            clist([c_outcome(t) for t in obs.get("trace") or []]), cbool(answered), cbool(obs.get("prompt", False)),
+            clist([cZ(x) for x in r.get("info") or []]), cref)
     if kind == "rsrv":
         if obs.get("panicked"):
             res = "RPropagatedPanic"
@@ -810,6 +939,8 @@ def _has_panic(case):
 
 def nontrivial(case, obs):
     k = case.get("kind")
+    if k == "g":
+        return case["gconf"]["mode"] != "none" or case["fire"]["mode"] != "none"
     if k == "e2ec":
         return bool(case["hold_ms"]) or sum((a.get("rep") or {}).get("n", 0) for a in case["acts"]) > 32768
     if k == "rsrv":
@@ -828,7 +959,22 @@ def nontrivial(case, obs):
 def bucket(case, obs):
     k = case.get("kind")
     out = ["kind:" + k]
+    if k == "g":
+        out.append("g.handler=%s/%s" % (case["gconf"]["mode"], case["gconf"]["body"]))
+        out.append("g.fire:%s/%s" % (case["fire"]["mode"], case["fire"]["cause"]))
+        out.append("g.status=%s" % (obs.get("resp") or {}).get("status"))
+        if any(a["a"] == "err" for a in case["acts"]):
+            out.append("g.httpx-error-by-handler")
+        return out
     if k == "e2ec":
+        if case.get("full"):
+            out.append("e2ec.full-chain")
+        if (obs.get("resp") or {}).get("info"):
+            out.append("e2ec.informational")
+        if case.get("ref"):
+            out.append("e2ec.reference-compared")
+        if _has_panic(case):
+            out.append("e2ec.panic/timeout=%s" % bool(case["rtimeout_ms"] or case["gtimeout_ms"]))
         eff = case["rtimeout_ms"] or case["gtimeout_ms"]
         out.append("e2ec.global=%d/route=%d" % (case["gtimeout_ms"], case["rtimeout_ms"]))
         out.append("e2ec.%s" % ("overrun" if case["hold_ms"] and 0 < eff < case["hold_ms"] else ("held-no-deadline" if case["hold_ms"] else "instant")))
@@ -900,6 +1046,11 @@ def bucket(case, obs):
 
 def explain(case, obs):
     k = case.get("kind")
+    if k == "g":
+        return ("application-wide httpx error handler (C02.Exec.spec_ok_g, theorem c02_timeout_reply_ignores_plain_error_handler): a "
+                "handler parked at its deadline must be answered 503 (499 on client cancel) + 'Request Timeout' whatever "
+                "httpx.SetErrorHandler installed (only a SetErrorHandlerCtx handler decides that reply); errors the handler "
+                "reports through httpx.Error / ErrorCtx are answered by the handler installed for that function, else 400 + text")
     if k == "e2ec":
         return ("engine-built chain (C02.Exec.spec_ok_e): with server-wide timeout gtimeout_ms and route timeout rtimeout_ms the "
                 "deadline that applies is the route's if present, else the server's (c02_effective_deadline); a handler parked "
